@@ -223,3 +223,194 @@ theorem fmtSubset_path {fd : Found} {fs : List CovFile} {x : Entry} (h : x ∈ f
   · obtain ⟨f, hf, _, _, rfl⟩ := mem_noCopyright.mp hm; exact ⟨f, hf, by simp [entryPath]⟩
 
 end Model
+
+/-! ### the walk yields no path twice; `relText` is injective on proper names -/
+
+namespace Model
+open Py Spec
+
+mutual
+/-- the names within one directory are distinct, everywhere in the (size) tree -/
+def wfN : Node → Prop
+  | .dir cs => wfNs cs
+  | _ => True
+def wfNs : List (String × Node) → Prop
+  | [] => True
+  | (n, c) :: rest => (∀ e ∈ rest, e.1 ≠ n) ∧ wfN c ∧ wfNs rest
+end
+
+theorem mem_toNodes_name : ∀ (cs : List (String × ENode)) {e : String × Node}, e ∈ toNodes cs → ∃ e' ∈ cs, e'.1 = e.1
+  | [], _, h => by simp [toNodes] at h
+  | (n, c) :: rest, e, h => by
+    simp only [toNodes, List.mem_cons] at h
+    rcases h with rfl | h
+    · exact ⟨(n, c), by simp, rfl⟩
+    · obtain ⟨e', he', hn⟩ := mem_toNodes_name rest h
+      exact ⟨e', List.mem_cons_of_mem _ he', hn⟩
+
+mutual
+theorem wfN_toNode : ∀ (n : ENode), wfNode n → wfN n.toNode
+  | .file _, _ => by simp [ENode.toNode, wfN]
+  | .symlink, _ => by simp [ENode.toNode, wfN]
+  | .dir cs, h => by
+    simp only [ENode.toNode, wfN]
+    exact wfNs_toNodes cs (by simpa [wfNode] using h)
+theorem wfNs_toNodes : ∀ (cs : List (String × ENode)), wfEntries cs → wfNs (toNodes cs)
+  | [], _ => by simp [toNodes, wfNs]
+  | (n, c) :: rest, h => by
+    simp only [wfEntries] at h
+    simp only [toNodes, wfNs]
+    refine ⟨fun e he => ?_, wfN_toNode c h.2.1, wfNs_toNodes rest h.2.2⟩
+    obtain ⟨e', he', hn⟩ := mem_toNodes_name rest he
+    rw [← hn]; exact h.1 e' he'
+end
+
+theorem coveredIn_head {cfg : WalkCfg} {path : List String} {dn : String} {cs : List (String × Node)} {rel : List String}
+    (h : CoveredIn cfg path dn cs rel) : ∃ n tail node, rel = n :: tail ∧ (n, node) ∈ cs := by
+  cases h with
+  | file hm _ => exact ⟨_, [], _, rfl, hm⟩
+  | dir hm _ _ => exact ⟨_, _, _, rfl, hm⟩
+
+mutual
+theorem nodup_walkNode (cfg : WalkCfg) : ∀ (n : Node) (path : List String) (pn name : String), wfN n →
+    (walkNode cfg path pn name n).Nodup
+  | .file size, path, pn, name, _ => by
+    simp only [walkNode]; split <;> simp
+  | .symlink, _, _, _, _ => by simp [walkNode]
+  | .dir cs, path, pn, name, h => by
+    simp only [walkNode]
+    split
+    · simp
+    · exact nodup_walkList cfg cs _ _ (by simpa [wfN] using h)
+theorem nodup_walkList (cfg : WalkCfg) : ∀ (cs : List (String × Node)) (path : List String) (dn : String), wfNs cs →
+    (walkList cfg path dn cs).Nodup
+  | [], _, _, _ => by simp [walkList]
+  | (n, c) :: rest, path, dn, h => by
+    simp only [wfNs] at h
+    simp only [walkList]
+    rw [List.nodup_append]
+    refine ⟨nodup_walkNode cfg c path dn n h.2.1, nodup_walkList cfg rest path dn h.2.2, ?_⟩
+    intro a ha b hb hab
+    obtain ⟨ra, rfl, hca⟩ := (mem_walkNode cfg c path dn n a).mp ha
+    obtain ⟨rb, hb', hcb⟩ := (mem_walkList cfg rest path dn b).mp hb
+    rw [← hab] at hb'
+    have hrel : ra = rb := List.append_cancel_left hb'
+    obtain ⟨na, ta, nodea, rfl, hma⟩ := coveredIn_head hca
+    obtain ⟨nb, tb, nodeb, hrb, hmb⟩ := coveredIn_head hcb
+    rw [hrb] at hrel
+    simp only [List.mem_singleton, Prod.mk.injEq] at hma
+    have : nb = n := by
+      have := (List.cons.inj hrel).1
+      rw [← this, hma.1]
+    exact h.1 (nb, nodeb) hmb this
+end
+
+variable {c : E2ECfg} {g : GlobalLic} {tree : ETree}
+
+/-- in a well-formed tree the walk yields every covered file once -/
+theorem coveredFiles_nodup (hwf : wfEntries tree) : (coveredFiles c tree).Nodup :=
+  nodup_walkList _ _ _ _ (wfNs_toNodes tree hwf)
+
+theorem spdxFiles_paths_nodup (hwf : wfEntries tree) : ((spdxFiles c g tree).map (·.path)).Nodup := by
+  have hsub : ((spdxFiles c g tree).map (·.path)).Sublist (coveredFiles c tree) := by
+    have h1 : (((filesOf c g tree).filter (·.readable)).map (·.path)).Sublist ((filesOf c g tree).map (·.path)) :=
+      List.filter_sublist.map _
+    have h2 : (filesOf c g tree).map (·.path) = coveredFiles c tree := by
+      simp [filesOf, List.map_map, Function.comp_def, fileOf]
+    rw [h2] at h1
+    exact h1
+  exact (coveredFiles_nodup hwf).sublist hsub
+
+end Model
+namespace Model
+open Py Spec
+theorem sep_split_inj {s : Char} : ∀ (x y A B : List Char), s ∉ x → s ∉ y → x ++ s :: A = y ++ s :: B → x = y ∧ A = B
+  | [], [], A, B, _, _, h => by simpa using h
+  | [], d :: y, A, B, _, hy, h => by
+    simp only [List.nil_append, List.cons_append, List.cons.injEq] at h
+    exact absurd (h.1 ▸ List.mem_cons_self) hy
+  | a :: x, [], A, B, hx, _, h => by
+    simp only [List.nil_append, List.cons_append, List.cons.injEq] at h
+    exact absurd (h.1 ▸ List.mem_cons_self) hx
+  | a :: x, d :: y, A, B, hx, hy, h => by
+    simp only [List.cons_append, List.cons.injEq] at h
+    obtain ⟨rfl, h⟩ := h
+    obtain ⟨rfl, rfl⟩ := sep_split_inj x y A B (fun hm => hx (List.mem_cons_of_mem _ hm)) (fun hm => hy (List.mem_cons_of_mem _ hm)) h
+    exact ⟨rfl, rfl⟩
+
+theorem intercalate_cons_cons (sep x y : List Char) (l : List (List Char)) :
+    sep.intercalate (x :: y :: l) = x ++ sep ++ sep.intercalate (y :: l) := by
+  simp [List.intercalate, List.intersperse]
+
+theorem intercalate_single (sep x : List Char) : sep.intercalate [x] = x := by
+  simp [List.intercalate, List.intersperse]
+
+theorem intercalate_inj {s : Char} : ∀ (xs ys : List (List Char)), xs ≠ [] → ys ≠ [] →
+    (∀ x ∈ xs, s ∉ x) → (∀ y ∈ ys, s ∉ y) → [s].intercalate xs = [s].intercalate ys → xs = ys
+  | [], _, h, _, _, _, _ => absurd rfl h
+  | _, [], _, h, _, _, _ => absurd rfl h
+  | [x], [y], _, _, _, _, h => by simpa [intercalate_single] using h
+  | [x], y :: y' :: ys, _, _, hx, _, h => by
+    rw [intercalate_single, intercalate_cons_cons] at h
+    have : s ∈ x := by rw [h]; simp
+    exact absurd this (hx x (by simp))
+  | x :: x' :: xs, [y], _, _, _, hy, h => by
+    rw [intercalate_single, intercalate_cons_cons] at h
+    have : s ∈ y := by rw [← h]; simp
+    exact absurd this (hy y (by simp))
+  | x :: x' :: xs, y :: y' :: ys, _, _, hx, hy, h => by
+    rw [intercalate_cons_cons, intercalate_cons_cons] at h
+    simp only [List.append_assoc, List.singleton_append] at h
+    obtain ⟨rfl, h'⟩ := sep_split_inj x y _ _ (hx x (by simp)) (hy y (by simp)) h
+    have := intercalate_inj (x' :: xs) (y' :: ys) (by simp) (by simp)
+      (fun z hz => hx z (List.mem_cons_of_mem _ hz)) (fun z hz => hy z (List.mem_cons_of_mem _ hz)) h'
+    rw [this]
+
+theorem map_toList_inj : ∀ (p q : List String), p.map String.toList = q.map String.toList → p = q
+  | [], [], _ => rfl
+  | [], _ :: _, h => by simp at h
+  | _ :: _, [], h => by simp at h
+  | a :: p, b :: q, h => by
+    simp only [List.map_cons, List.cons.injEq] at h
+    rw [String.toList_inj.mp h.1, map_toList_inj p q h.2]
+
+/-- `relText` is injective on non-empty paths whose names contain no slash (any real file system) -/
+theorem relText_inj {p q : List String} (hp : p ≠ []) (hq : q ≠ []) (sp : ∀ s ∈ p, '/' ∉ s.toList) (sq : ∀ s ∈ q, '/' ∉ s.toList)
+    (h : relText p = relText q) : p = q := by
+  simp only [relText, String.toList_intercalate] at h
+  have h' : ['/'].intercalate (p.map String.toList) = ['/'].intercalate (q.map String.toList) := h
+  have := intercalate_inj (s := '/') (p.map String.toList) (q.map String.toList) (by simpa using hp) (by simpa using hq)
+    (by intro x hx; obtain ⟨a, ha, rfl⟩ := List.mem_map.mp hx; exact sp a ha)
+    (by intro x hx; obtain ⟨a, ha, rfl⟩ := List.mem_map.mp hx; exact sq a ha) h'
+  exact map_toList_inj p q this
+
+
+theorem relText_ne_nil {p : List String} (hp : p ≠ []) (hg : goodNames p) : relText p ≠ [] := by
+  simp only [relText, String.toList_intercalate]
+  match p, hp, hg with
+  | [a], _, hg =>
+    have : a.toList ≠ [] := fun h => (hg a (by simp)).1 (String.toList_inj.mp (by simpa using h))
+    simpa [List.intercalate, List.intersperse] using this
+  | a :: b :: r, _, hg =>
+    have : a.toList ≠ [] := fun h => (hg a (by simp)).1 (String.toList_inj.mp (by simpa using h))
+    simp only [List.map_cons]
+    intro h
+    have h2 : ['/'].intercalate (a.toList :: b.toList :: r.map String.toList) = a.toList ++ ['/'] ++ ['/'].intercalate (b.toList :: r.map String.toList) :=
+      intercalate_cons_cons _ _ _ _
+    have h3 : "/".toList = ['/'] := rfl
+    rw [h3, h2] at h
+    simp at h
+
+theorem relText_inj' {p q : List String} (hp : p ≠ []) (gp : goodNames p) (gq : goodNames q)
+    (h : relText p = relText q) : p = q := by
+  by_cases hq : q = []
+  · subst hq
+    exact absurd h (relText_ne_nil hp gp)
+  · exact relText_inj hp hq (fun s hs => (gp s hs).2) (fun s hs => (gq s hs).2) h
+
+
+theorem spdxName_inj {p q : List String} (hp : p ≠ []) (gp : goodNames p) (gq : goodNames q)
+    (h : spdxName p = spdxName q) : p = q :=
+  relText_inj' hp gp gq (List.append_cancel_left h)
+
+end Model
